@@ -46,7 +46,7 @@ func genStoreFor(r *Rng, batch int, style string) []KV {
 
 func genC03(seed uint64, i int, tier string) *Scenario {
 	r := NewRng(seed)
-	style := pick(r, []string{StoreMixed, StoreInts, StoreNum, StoreText, StoreJSON, StoreMixed, StoreCollide})
+	style := pick(r, []string{StoreMixed, StoreInts, StoreNum, StoreText, StoreJSON, StoreMixed, StoreCollide, StoreUnicode})
 	g := newGen(r, style)
 	b := pickBatch(r)
 	sc := &Scenario{Cfg: Config{Batch: b, Cache: r.Bool(), Alias: r.Chance(0.3), Lazy: r.Chance(0.3)}}
